@@ -463,6 +463,11 @@ def inpDigits (off base : Nat) (s : List Nat) : Nat → Nat → List Nat → Lis
           if dig ≥ base then (acc.reverse, pos)
           else inpDigits off base s fuel (pos + 1) (dig :: acc)
 
+/-- stream index at which the digit loop of mpz_inp_str_nowhite starts: the character `c` sits at `pos - 1`
+    unless the stream is at EOF -/
+def inpStart (c : Option Nat) (pos : Nat) : Nat :=
+  match c with | some _ => pos - 1 | none => pos
+
 /-- mpz_inp_str_nowhite (mpz/inp_str.c:38): `c` = character already read (`none` = EOF), `pos` = stream
     position after it, `nread` = bytes counted so far. -/
 def inp_str_nowhite (base : Int) (s : List Nat) (c : Option Nat) (pos nread : Nat) : InpResult :=
@@ -491,7 +496,7 @@ def inp_str_nowhite (base : Int) (s : List Nat) (c : Option Nat) (pos nread : Na
       | fuel + 1 => if c == some 48 then skipZeros fuel (getc s pos).1 (getc s pos).2 (nread + 1) else (c, pos, nread)
     let (c, pos, nread) := skipZeros (s.length + 1) c pos nread
     -- the digit loop starts at the character `c`, i.e. at stream position pos-1 unless EOF
-    let start := match c with | some _ => pos - 1 | none => pos
+    let start := inpStart c pos
     let (ds, endpos) := inpDigits off base s (s.length + 1) start []
     -- getc calls made by the loop = ds.length (each stored digit is followed by one getc); the last one is
     -- pushed back with ungetc (a no-op at EOF) and `nread--`
